@@ -16,13 +16,32 @@ case of every run.
 namespace Coupe.Driver.C14
 open Coupe.Vn Coupe.Driver
 
-/-- Weight type token → model configuration. -/
-def cfgOf (ty : String) : Option Cfg :=
-  match ty with
-  | "i64" => some {}
-  | "u64" => some { unsigned := true }
-  | "f64" => some { halfExact := true }
-  | _ => none
+/-- Weight type token `<base>[e<k>][@<variant>]` → model configuration.  The variant names the
+Rust input type the weights are handed over in (Vec, iterator adaptors, arrays, the tools entry
+point …): the model is a function of the weight VALUES, so it ignores it.  `f64e<k>` are the same
+integers times 2^k (subnormal … near-overflow f64 weights): every operation of the code is
+homogeneous in the weights and exact on them, so the prediction is the one for the integers.
+Narrower / wider types of the same class behave like the 64-bit one inside the contract. -/
+def cfgOf (tok : String) : Option Cfg :=
+  let ty := (tok.splitOn "@").headD ""
+  if ty.startsWith "f64e" then
+    match (ty.drop 4).toString.toInt? with
+    | some k => if -1073 ≤ k ∧ k ≤ 971 then some { halfExact := true } else none
+    | none => none
+  else
+    match ty with
+    | "i64" | "i32" | "i128" => some {}
+    | "u64" | "u32" | "usize" => some { unsigned := true }
+    | "f64" | "f32" => some { halfExact := true }
+    | _ => none
+
+/-- threads token: `<n>` (pool.install), `g` (global pool), `<n>j` (inside rayon::join),
+`<n>s` (inside a scope spawn) – the calling context, which the result does not depend on. -/
+def threadsOk (t : String) : Bool :=
+  if t == "g" then true
+  else
+    let d := if t.endsWith "j" || t.endsWith "s" then (t.dropEnd 1).toString else t
+    d.toNat?.isSome
 
 def render : Outcome → String
   | .ok ids c => "ok " ++ toString c ++ " | " ++ joinNats ids
@@ -239,7 +258,7 @@ def takeA {α} (f : String → Option α) (toks : Array String) (pos : Nat) : Op
 /-- One `<ty> <threads> <n> <w…> <m> <ids…>` block starting at `pos`. -/
 def parseCase (toks : Array String) (pos : Nat) : Option (Cfg × Array Int × Array Nat × Nat) := do
   let cfg ← cfgOf (← toks[pos]?)
-  let _ ← parseNat? (← toks[pos + 1]?)
+  if !threadsOk (← toks[pos + 1]?) then none
   let (ws, p1) ← takeA parseInt? toks (pos + 2)
   let (ids, p2) ← takeA parseNat? toks p1
   if cfg.unsigned && ws.any (fun w => w < 0) then none
@@ -247,9 +266,10 @@ def parseCase (toks : Array String) (pos : Nat) : Option (Cfg × Array Int × Ar
 
 /-- ops:
 `best|first <i64|u64|f64> <threads> <n> <w_0> … <w_{n-1}> <m> <id_0> … <id_{m-1}>`
+`many best|first <pool> <k> <case>*k` – k calls at once in one pool (each predicted alone);
 `twice best|first <case A> <case B>` – the same algorithm value and the same array buffer used
 for two successive calls (the model is a function of the input, so it just runs both).
-(weights are integers in every type; `threads` is the rayon pool size, which the model – like
+(weights are integers in every type, `-0` is the float -0.0 – a zero; `threads` is the rayon pool size, which the model – like
 the code's result – does not depend on). -/
 def handle (toks : List String) : String :=
   let t := toks.toArray
@@ -263,6 +283,22 @@ def handle (toks : List String) : String :=
       let r1 ← runOne algo c1 w1 i1
       let r2 ← runOne algo c2 w2 i2
       pure (r1 ++ " ;; " ++ r2)) with
+    | none => "bad-op"
+    | some s => s
+  | some "many" =>
+    match (do
+      let algo ← t[1]?
+      let _ ← parseNat? (← t[2]?)
+      let k ← parseNat? (← t[3]?)
+      if k > 256 then none
+      let mut pos := 4
+      let mut outs : Array String := #[]
+      for _ in [0:k] do
+        let (c, w, i, p) ← parseCase t pos
+        outs := outs.push (← runOne algo c w i)
+        pos := p
+      if pos ≠ t.size then none
+      pure (" ;; ".intercalate outs.toList)) with
     | none => "bad-op"
     | some s => s
   | some algo =>
